@@ -321,10 +321,24 @@ func master(p *Property, tier string, n int, name func(int) string, only string,
 		wg      sync.WaitGroup
 		fatal   string
 		hung    int
+		nviol   int
+		capped  bool
 	)
+	noOpenFindings := len(loadFindings(p.ID)) == 0 // with open findings every violation must be seen to be matched
+	wallCap := 25 * time.Minute
+	if tier == "thorough" {
+		wallCap = 8 * time.Hour
+	}
 	take := func() (int, bool) {
 		mu.Lock()
 		defer mu.Unlock()
+		if since := time.Since(t0); (since > wallCap) || (nviol > 0 && noOpenFindings && since > 3*time.Minute) {
+			// the whole check has a wall-clock cap (it only ends the enumeration early: what was not run is reported as
+			// not run, exhaustive=false), and once a violation is known nothing is gained by grinding through every
+			// remaining case of a tree on which each case runs into its budget
+			capped = true
+			return 0, false
+		}
 		if next >= len(idx) || fatal != "" || hung >= 3 {
 			// three cases in which the code under test does not return are enough: every further one would cost
 			// another two minutes of processor time
@@ -385,6 +399,7 @@ func master(p *Property, tier string, n int, name func(int) string, only string,
 					}
 					mu.Lock()
 					results = append(results, r)
+					nviol += len(r.Viols)
 					if r.Hung {
 						hung++
 					}
@@ -425,7 +440,11 @@ func master(p *Property, tier string, n int, name func(int) string, only string,
 	slowest := Result{}
 	if len(results) < len(idx) {
 		exhaustive = false
-		incomplete = append(incomplete, fmt.Sprintf("%d cases were not run after three cases in which the code under test did not return", len(idx)-len(results)))
+		why := "after three cases in which the code under test did not return"
+		if capped {
+			why = "because the check reached its wall-clock cap, or a violation was already known and three minutes had passed"
+		}
+		incomplete = append(incomplete, fmt.Sprintf("%d cases were not run %s", len(idx)-len(results), why))
 	}
 	for _, r := range results {
 		states += r.States
